@@ -50,9 +50,17 @@ def gen(seed, tier, insts, replay=None):
                 shp = G.shape_of(i)
                 exts = [tuple(x if x is not None else rnd.choice([0, 1, 2, 3, 4]) for x in shp) for _ in range(2 if not thorough else 5)]
                 exts = list(dict.fromkeys(exts))
-            for es in (exts if len(exts) <= n else rnd.sample(exts, n)):
-                es = list(es)
-                idx = ';'.join(C.fmt(list(x)) if r else 'e' for x in itertools.product(*[range(e) for e in es])) or '-'
+            sel = [list(x) for x in (exts if len(exts) <= n else rnd.sample(exts, n))]
+            if spat is None and r in (1, 2) and sk in ('left', 'right', 'stride') and dk in ('left', 'right', 'stride'):
+                # the index space exactly fills the narrower of the two index types (required_span_size() == its maximum): still a valid conversion
+                Hm = min(C.hi(t), C.hi(u)); dv = next((q for q in range(2, 70000) if Hm % q == 0), None)
+                sel.append([Hm] if r == 1 else ([dv, Hm // dv] if dv else [Hm, 1])); sel[-1] = sel[-1] + ['top']
+            for es in sel:
+                top = es[-1:] == ['top']; es = list(es[:-1]) if top else list(es)
+                if top:      # corners and unit vectors only
+                    pts = [[0] * r, [e - 1 for e in es]] + [[1 if k == j else 0 for k in range(r)] for j in range(r) if es[j] > 1]
+                    idx = ';'.join(C.fmt(x) for x in pts)
+                else: idx = ';'.join(C.fmt(list(x)) if r else 'e' for x in itertools.product(*[range(e) for e in es])) or '-'
                 variants = []
                 if sk == 'stride': variants = [dict(str=s) for s in stride_candidates(rnd, es)]
                 elif sk in ('lpad', 'rpad'):
@@ -66,6 +74,7 @@ def gen(seed, tier, insts, replay=None):
                     if sk in ('lpad', 'rpad') and r >= 2 and (st_[1] if sk == 'lpad' else st_[-2]) * C.prod([max(e, 1) for e in (es[1:] if sk == 'lpad' else es[:-1])]) > Hm: continue
                     l = G.line('conv', i) + ' ext=%s' % C.fmt(es) + (' str=%s' % C.fmt(v['str']) if 'str' in v else '') + (' pv=%d' % v['pv'] if 'pv' in v else '') + ' idx=%s' % idx
                     conv.append((l, dict(inst=list(i), ext=es, **v)))
+                    if top: continue      # huge index space: conversions only (the comparison oracle enumerates the index space)
                     # comparison operand of the target type
                     a_str = spec_strides(sk, ssp, es, v.get('str'), v.get('pv'))
                     es2 = list(es)
